@@ -66,7 +66,7 @@ PROPS = {
     ),
     "C06": dict(
         title="Lifecycle gating and monotonicity",
-        lean=["LP.Props.C06gates", "LP.Props.C06stage", "LP.Props.C06run"],
+        lean=["LP.Props.C06gates", "LP.Props.C06stage", "LP.Props.C06run", "LP.Props.C10reach"],
         profiles=[("timeline", ALL_VARIANTS), ("life", ALL_VARIANTS), ("deploy", ALL_VARIANTS),
                   ("chunks", ["nft"] + GUAR)],
         R={"st": [(ANY, STAGE_MSGS), ({"deploy"}, None)]},
@@ -95,7 +95,7 @@ PROPS = {
     ),
     "C10": dict(
         title="Blacklisting refunds in full and excludes; un-blacklisting restores",
-        lean=["LP.Props.C10", "LP.Props.C10frame"],
+        lean=["LP.Props.C10", "LP.Props.C10frame", "LP.Props.C10reach"],
         profiles=[("life", ALL_VARIANTS), ("reserve", GUAR)],
         R={"st": [(BL_EPS, None), ({"confirm"}, ["blacklist"])], "xf": {"blacklist", "refundUsers"}},
         D={k: BL_EPS for k in ["addr.bl", "addr.conf", "addr.uts", "addr.bluts", "wl", "tg", "nrw", "payers",
